@@ -84,6 +84,11 @@ Proof. exact report_no_topic. Qed.
 Theorem C15_spec_sound : forall i, spec_c15 i (model_pobs i) = [].
 Proof. exact spec_c15_sound. Qed.
 
+(* sequences of calls on one producer instance, records read after the last call: every call of every sequence is
+   judged by the single-call statement, and the model (the single-call model, call by call) passes *)
+Theorem C15_seq_spec_sound : forall is k, spec_c15_seq k is (model_pseq is) = [].
+Proof. exact spec_c15_seq_sound. Qed.
+
 (* non-vacuity / witnesses *)
 Example C15_override_example :
   produce [116] (PSimple [120; 121] [0; 255]) = {| p_result_nil := true; p_err := e_none; p_records := [([120; 121], [0; 255])] |}
@@ -119,3 +124,4 @@ Print Assumptions C15_report_error_unknown.
 Print Assumptions C15_report_wrong_type_no_record.
 Print Assumptions C15_report_no_topic_no_record.
 Print Assumptions C15_spec_sound.
+Print Assumptions C15_seq_spec_sound.
